@@ -12,7 +12,8 @@ Results go to benign/RESULTS.json (development-time record; nothing here is used
 import sys, os, json, glob, re, subprocess, shutil, time
 from concurrent.futures import ThreadPoolExecutor
 V = os.path.dirname(os.path.dirname(os.path.abspath(__file__)))
-ST = '/tmp/benign_scratch'
+ST = '/tmp/benign_scratch_%d' % os.getpid()
+ONLY = None
 props = [json.loads(l) for l in open(os.path.join(V, 'properties.jsonl'))]
 
 
@@ -46,6 +47,8 @@ def run_one(name, allchecks):
         checks = meta.get('checks') or sorted(p['id'] for p in props if touched & set(p['anchors']['files']))
         if allchecks:
             checks = [p['id'] for p in props]
+        if ONLY:
+            checks = [c for c in checks if c in ONLY]
         os.makedirs(vd, exist_ok=True)
         sh(['rsync', '-a', '--delete', '--exclude', '.git', '--exclude', 'replays', '--exclude', '.cello_repo', V + '/', vd + '/'])
         out = {}
@@ -79,7 +82,9 @@ def main():
     a = sys.argv[1:]
     jobs = int(a[a.index('--jobs') + 1]) if '--jobs' in a else 3
     allchecks = '--all-checks' in a
-    names = [x for i, x in enumerate(a) if not x.startswith('--') and (i == 0 or a[i - 1] != '--jobs')]
+    global ONLY
+    ONLY = a[a.index('--checks') + 1].split(',') if '--checks' in a else None
+    names = [x for i, x in enumerate(a) if not x.startswith('--') and (i == 0 or a[i - 1] not in ('--jobs', '--checks'))]
     if not names:
         names = sorted(os.path.basename(os.path.dirname(p)) for p in glob.glob(os.path.join(V, 'benign', '*', 'patch.diff')))
     os.makedirs(ST, exist_ok=True)
